@@ -361,3 +361,18 @@ Lemma teardown_mt_examples :
   mt_example LOr = Some ([], [], [3; 2; 1]) /\
   (exists q i d, mt_example LAnd = Some (q, i, d) /\ i <> []).
 Proof. split; [vm_compute; reflexivity|]. eexists _, _, _. split; [vm_compute; reflexivity | discriminate]. Qed.
+
+(* one wake-up per push: nothing is stranded next to a sleeping worker *)
+Lemma every_push_no_stranded n workers : stranded WakeEveryPush n workers = 0%nat.
+Proof.
+  unfold stranded, started, wakes. destruct (Nat.min n workers <? workers)%nat eqn:E; [|reflexivity].
+  apply Nat.ltb_lt in E. assert (Nat.min n workers = n) by lia. lia.
+Qed.
+(* waking only on the empty -> non-empty transition strands the second of two back-to-back closures next to idle workers *)
+Lemma empty_transition_strands : stranded WakeOnEmptyToNonEmpty 2 3 = 1%nat /\ started WakeOnEmptyToNonEmpty 2 3 = 1%nat.
+Proof. split; reflexivity. Qed.
+Lemma empty_transition_strands_general n workers : (2 <= n)%nat -> (2 <= workers)%nat -> stranded WakeOnEmptyToNonEmpty n workers = (n - 1)%nat.
+Proof.
+  intros Hn Hw. unfold stranded, started, wakes. replace (Nat.min n 1) with 1%nat by lia.
+  replace (Nat.min 1 workers) with 1%nat by lia. assert (E : (1 <? workers)%nat = true) by (apply Nat.ltb_lt; lia). rewrite E. reflexivity.
+Qed.
